@@ -78,6 +78,11 @@ func VerifH_C12_SeriesRoundTrip() {
 		zzverif.Assert(c12Same(back.EntityValues[i], s.EntityValues[i]), "entity value survives the series key round trip")
 	}
 	zzverif.Assert(back.ID == s.ID, "the series id is a function of the key bytes")
+	// the same entity always maps to the same series: a copy marshals to the same key and id
+	var cp Series
+	s.CopyTo(&cp)
+	cerr := cp.Marshal()
+	zzverif.Assert(cerr == nil && bytes.Equal(cp.Buffer, s.Buffer) && cp.ID == s.ID, "a copied series marshals to the same key and id as its source")
 }
 
 //verif:harness prop=C12 tier=quick,thorough reach=compared paths=400000
